@@ -176,7 +176,8 @@ def frag_refs(chk, info):
     bad, errs = common.run_mismatch_shards("C02rt", PRELUDE, terms, "check_ref_table", shard=3, timeout=900)
     for e in errs:
         chk.tie_broken("translator-validation-run", e)
-    chk.traces += sum(26 ** t[1] for i, t in enumerate(tables) if i not in bad) if not errs else 0
+    if common.run_mismatch_shards.evaluated:
+        chk.traces += sum(len(KT) ** t[1] for i, t in enumerate(tables) if i not in bad) if not errs else 0
     for b in bad:
         m, n, num, _ = tables[b]
         chk.tie_broken("translator-validation", {"what": "reference table differs between SDK and Gen_RefChecks",
@@ -621,8 +622,11 @@ def run(chk):
     if not can_eval:
         # Coq side unavailable: run the oracle only (run_mismatch_shards would report every shard as an error)
         common_run = common.run_mismatch_shards
-        common.run_mismatch_shards = lambda *a, **k: ([], [])
-        common.run_mismatch_shards.evaluated = 0
+        def _no_eval(*a, **k):
+            _no_eval.evaluated = 0
+            return [], []
+        _no_eval.evaluated = 0
+        common.run_mismatch_shards = _no_eval
     try:
         frag_refs(chk, infos["refs"] or fallback_info())
         if infos["ints"]:
